@@ -287,6 +287,11 @@ func c02Build(c c02Case) (main string, mods map[string]string, paths []string, e
 		exp.units = "leaf-units"
 	}
 	leaf := fmt.Sprintf("%s x { %s%s }", kind, leafType, leafExtra)
+	if c.Depth > 0 && prevRestr != "" && fam.restr[c.Depth-1] != "" {
+		// a sibling declared after x restricts the same typedef differently (it restates the
+		// typedef's own restriction): nothing of it may show up in x's type
+		leaf += fmt.Sprintf(" leaf sibling-of-x { type %s { %s } }", ref, fam.restr[c.Depth-1])
+	}
 	tds := strings.Join(typedefs, " ")
 	mods = map[string]string{}
 	hdr := `module m { yang-version 1.1; namespace "urn:m"; prefix m; `
